@@ -24,6 +24,9 @@ import Mathlib.Analysis.SpecialFunctions.Log.Base
 import Mathlib.Analysis.SpecialFunctions.Trigonometric.Inverse
 import Mathlib.Analysis.SpecialFunctions.Sqrt
 import Mathlib.Analysis.SpecialFunctions.Pow.Real
+import Mathlib.Analysis.MeanInequalitiesPow
+import Mathlib.Analysis.Convex.SpecificFunctions.Pow
+import Mathlib.Analysis.Convex.Jensen
 import Mathlib.Algebra.Order.BigOperators.Group.Finset
 import Mathlib.Algebra.BigOperators.Field
 import Mathlib.Tactic.Linarith
@@ -475,6 +478,67 @@ theorem T18_min_entropy_range (b : ℝ) (hb : 1 < b) (p : ι → ℝ) (hp : ∀ 
     rw [inv_le_iff_one_le_mul₀ hcard]
     linarith
 
+/-- power-mean bounds: `Σ p_i^α ≤ n^(1−α)` for `0 ≤ α ≤ 1`, `n^(1−α) ≤ Σ p_i^α` for `α ≥ 1`. -/
+theorem sum_rpow_card_cmp [Nonempty ι] (α : ℝ) (p : ι → ℝ) (hp : ∀ i, 0 ≤ p i) (sp : ∑ i, p i = 1) :
+    (0 ≤ α → α ≤ 1 → ∑ i, p i ^ α ≤ (Fintype.card ι : ℝ) ^ (1 - α))
+      ∧ (1 ≤ α → (Fintype.card ι : ℝ) ^ (1 - α) ≤ ∑ i, p i ^ α) := by
+  have hN : (0 : ℝ) < Fintype.card ι := by exact_mod_cast Fintype.card_pos
+  set N : ℝ := (Fintype.card ι : ℝ) with hNdef
+  have hw : ∑ _i : ι, (1 / N) = 1 := by
+    simp [hNdef]
+  have hmean : ∑ i, (1 / N) * p i = 1 / N := by rw [← Finset.mul_sum, sp, mul_one]
+  have hpow : N ^ (1 - α) = N * (1 / N) ^ α := by
+    rw [rpow_sub hN, rpow_one, one_div, inv_rpow hN.le]; field_simp
+  constructor
+  · intro h0 h1
+    have hJ := (concaveOn_rpow h0 h1).le_map_sum (t := Finset.univ) (w := fun _ : ι => 1 / N)
+      (p := p) (fun _ _ => by positivity) hw (fun i _ => hp i)
+    simp only [smul_eq_mul] at hJ
+    rw [hmean, ← Finset.mul_sum] at hJ
+    rw [hpow]
+    have := mul_le_mul_of_nonneg_left hJ hN.le
+    rwa [← mul_assoc, mul_one_div_cancel hN.ne', one_mul] at this
+  · intro h1
+    have hJ := rpow_arith_mean_le_arith_mean_rpow Finset.univ (fun _ : ι => 1 / N) p
+      (fun _ _ => by positivity) hw (fun i _ => hp i) h1
+    rw [hmean, ← Finset.mul_sum] at hJ
+    rw [hpow]
+    have := mul_le_mul_of_nonneg_left hJ hN.le
+    rwa [← mul_assoc, mul_one_div_cancel hN.ne', one_mul] at this
+
+/-- **`H_α(p) ≤ log_b n`** for every `α ≥ 0`, `α ≠ 1` (and `b > 1`): with the Shannon case
+`T18_shannon_le_log_card` the whole Rényi family is bounded by the Hartley entropy of the full
+support. -/
+theorem T18_renyi_le_log_card (b α : ℝ) (hb : 1 < b) (hα0 : 0 ≤ α) (hα : α ≠ 1) (p : ι → ℝ)
+    (hp : ∀ i, 0 ≤ p i ∧ p i ≤ 1) (sp : ∑ i, p i = 1) :
+    1 / (1 - α) * logb b (∑ i, p i ^ α) ≤ logb b (Fintype.card ι) := by
+  have hne : Nonempty ι := by
+    by_contra h
+    rw [not_nonempty_iff] at h
+    simp at sp
+  have hN : (0 : ℝ) < Fintype.card ι := by exact_mod_cast Fintype.card_pos
+  obtain ⟨hle, hge⟩ := sum_rpow_cmp α p hp sp
+  obtain ⟨hB, hA⟩ := sum_rpow_card_cmp α p (fun i => (hp i).1) sp
+  have hlog : logb b ((Fintype.card ι : ℝ) ^ (1 - α)) = (1 - α) * logb b (Fintype.card ι) :=
+    logb_rpow_eq_mul_logb_of_pos hN
+  rcases lt_or_gt_of_ne hα with h | h
+  · have h1 : 0 < 1 - α := by linarith
+    have hpos : 0 < ∑ i, p i ^ α := lt_of_lt_of_le one_pos (hle h.le)
+    have := (logb_le_logb hb hpos (rpow_pos_of_pos hN _)).mpr (hB hα0 h.le)
+    rw [hlog] at this
+    rw [one_div, inv_mul_le_iff₀ h1]
+    exact this
+  · have h1 : 0 < α - 1 := by linarith
+    have hpos : 0 < ∑ i, p i ^ α := lt_of_lt_of_le (rpow_pos_of_pos hN _) (hA h.le)
+    have := (logb_le_logb hb (rpow_pos_of_pos hN _) hpos).mpr (hA h.le)
+    rw [hlog] at this
+    have e : 1 / (1 - α) * logb b (∑ i, p i ^ α) = -(logb b (∑ i, p i ^ α)) / (α - 1) := by
+      have : (1 - α) ≠ 0 := by linarith
+      field_simp
+      ring
+    rw [e, div_le_iff₀ h1]
+    nlinarith
+
 end renyi
 
 /-! ### concurrence -/
@@ -511,5 +575,15 @@ example :
   · intro i; fin_cases i <;> simp [p, q]
   · simp [p, Fin.sum_univ_three]; norm_num
   · simp [q, Fin.sum_univ_three]; norm_num
+
+/-- non-vacuity of the Rényi / Tsallis / min-entropy statements: the same `p` has entries in
+`[0, 1]`, its maximum sits at index 0, and `α = 1/2`, `α = 2` are admissible orders. -/
+example :
+    let p : Fin 3 → ℝ := ![1 / 2, 1 / 2, 0]
+    (∀ i, 0 ≤ p i ∧ p i ≤ 1) ∧ (∀ i, p i ≤ p 0) ∧ (1 / 2 : ℝ) ≠ 1 ∧ (2 : ℝ) ≠ 1 ∧ (0 : ℝ) ≤ 1 / 2 := by
+  intro p
+  refine ⟨?_, ?_, by norm_num, by norm_num, by norm_num⟩
+  · intro i; fin_cases i <;> simp [p] <;> norm_num
+  · intro i; fin_cases i <;> simp [p]
 
 end QV.Props.C18e
